@@ -125,10 +125,7 @@ EXCLUDED = "K"            # deliberately not evaluated (resource bound of the wa
 QUICK3 = "i0,i7,imax,fnan,true,empty,sabc,sregexbad,amixed,mopts,func1,absent"
 
 # stable witness classes of the genuine defects (function family, outcome) -> class
-FAMILIES = [
-    (("concat", "append", "fmtnum", "fmtifnum"), "I", "bif-internal-error-absent-or-funct-into-collection"),
-    (("kurtosis", "meaneb", "skewness", "stddev", "variance"), "I", "bif-internal-error-stats-non-numeric-element"),
-]
+FAMILIES = []   # (function names, outcome codes, class): none left -- the two BIF finding families were repaired (7cc689dec, a9c3aa6fe)
 
 
 def bif_class(name, code):
@@ -951,6 +948,14 @@ def cr_optsets(fmt):
                 flags = ["--ipprint"] + (["--allow-ragged-csv-input"] if ragged else []) + (["--no-dedupe-field-names"] if not dedupe else [])
                 term = "(RLite (pprint_opts %s %s))" % (_b(dedupe), _b(ragged))
                 out.append(("+".join(n for n, v in (("ragged", ragged), ("no-dedupe", not dedupe)) if v) or "default", flags, term, b" "))
+    elif fmt in ("barred", "markdownc"):
+        for implicit in (False, True):
+            for ragged in (False, True):
+                for dedupe in (True, False):
+                    flags = (["--ipprint", "--barred-input"] if fmt == "barred" else ["--imd"]) + (["--implicit-csv-header"] if implicit else []) + \
+                        (["--allow-ragged-csv-input"] if ragged else []) + (["--no-dedupe-field-names"] if not dedupe else [])
+                    term = "(RBar (mkB %s %s %s %s))" % (_b(fmt != "barred"), _b(implicit), _b(dedupe), _b(ragged))
+                    out.append(("+".join(n for n, v in (("implicit", implicit), ("ragged", ragged), ("no-dedupe", not dedupe)) if v) or "default", flags, term, b" | "))
     elif fmt == "xtab":
         for dedupe in (True, False):
             for ips in (b" ", b":", b": "):
@@ -962,7 +967,7 @@ def cr_optsets(fmt):
 
 def cr_parse_error(fmt, stderr):
     """observed error class as (python tuple, Coq term) or None when the message is not one of the modelled classes"""
-    m = re.search(rb"CSV header/data length mismatch (\d+) != (\d+) at filename \S+ (row|line) (\d+)", stderr)
+    m = re.search(rb"(?:CSV|PPRINT-barred) header/data length mismatch (\d+) != (\d+) at filename \S+ (row|line) (\d+)", stderr)
     if m and (m.group(3) == b"row") == (fmt == "csv"):
         t = (int(m.group(1)), int(m.group(2)), int(m.group(4)))
         return ("err-length-mismatch",) + t, "(Some (EMismatch %d%%N %d%%N %d%%N))" % t
@@ -1015,7 +1020,7 @@ def cr_observe(exe, items):
 
 
 CR_TY = "rdr * bytes * list record * option cerr"
-CR_IMPORTS = "Base.Record C01.Model C18.ModelReaders C18.Harness"
+CR_IMPORTS = "Base.Record C01.Model C18.ModelReaders C18.ModelBar C18.Harness"
 
 
 def cr_shrink(ctx, exe, fmt, flags, term, doc, rounds=3):
@@ -1044,7 +1049,8 @@ def cr_shrink(ctx, exe, fmt, flags, term, doc, rounds=3):
 def classified_reader_correspondence(ctx, exe):
     rng = ctx.rng
     n = 110 if ctx.tier == "quick" else 2500
-    alpha = {"csv": b'ab,"\n\r1 ;', "csvlite": b'ab,;\n\r1 "', "pprint": b"ab -\n\r1|", "xtab": b"ab :\n\r1"}
+    alpha = {"csv": b'ab,"\n\r1 ;', "csvlite": b'ab,;\n\r1 "', "pprint": b"ab -\n\r1|", "xtab": b"ab :\n\r1",
+             "barred": b"ab|+- \n\n\r1\t", "markdownc": b"ab||-: \\\n\n\r1\t"}
     extra = {
         "csv": [b'a,b\n1,x"y\n3,4\n', b'a,b\n1,"x"y\n3,4\n', b'a,b\n1,"xy\n3,4\n', b'a,b\n1,2,x"y\n3,4\n', b'a,b\nx"y,2\n', b'a,b\n"x"y,2\n', b'a,b\n"xy', b'a,b\n1,2\n\n',
                 b'a,b\n1,2\n\r', b"\r", b"a,b\r\n1,2\r\n", b"a,b\r1,2\r", b'a,b\n"1\r\n2",3\n', b'a,b\n1,2\r', b'"a",\n1,2\n', b'a,a\n1,2\n', b'a,a,a_2\n1,2,3\n',
@@ -1055,26 +1061,38 @@ def classified_reader_correspondence(ctx, exe):
         "pprint": [b"a b\n1 -\n", b"a   b\n- -\n\nc\n-\n", b"a b\n1\n", b"a b\n1 2 3\n", b"  a  b  \n 1 2\n", b" \n", b"a\n \n", b"a a\n1 2\n", b"a - b\n1 2 3\n"],
         "xtab": [b"a 1\nb 2\n", b"a    1\n\n\nb\n", b"a\n", b" a 1\n", b"  \n", b"a 1\na 2\na_2 3\n", b"a:1\nb::2\n", b"a: 1\nb:  : 2\n", b"\n\na 1", b"a 1\r\nb 2\r\n\r\nc 3\r\n"],
     }
+    extra["barred"] = [b"+---+---+\n| a | b |\n+---+---+\n| 1 | 2 |\n+---+---+\n", b"| a | b |\n| 1 |\n", b"| a | b |\n| 1 | 2 | 3 |\n", b"no bars\n| a |\n| 1 |\n",
+                       b"|\n|\n", b"||\n||\n| |\n", b"+\n++\n+-+\n| a |\n+-x+\n", b"| a | a |\n| 1 | 2 |\n\n| c |\n| 3 |\n| 4 | 5 |\n", b"x| a |y\n z| 1 |w\n",
+                       b"| a | b |\r\n| 1 | 2 |\r\n", b"|  a\t|\tb  |\n|\t1 | 2\t|\n", b"| a | b |\n+---+\n|1|2|\n\n\n|x|\n", b"a|b\n1|2\n", b"| a |\n\n| b |\n| 1 |\n| 2 | 3 |\n"]
+    extra["markdownc"] = [b"| a | b |\n| --- | --- |\n| 1 | 2 |\n", b"| a | b |\n| ---: | :--- |\n| 1 | 2 |\n", b"| a | b |\n| --- | --- |\n| --- | --- |\n| - | |\n",
+                          b"| a | b |\n| 1 | 2 |\n| --- | --- |\n", b"| a |\n| --- |\n| x\\|y |\n| \\\\|z |\n", b"| a | b |\n| --- | --- |\n| 1 |\n", b"| a |\n| --- |\n| 1 | 2 |\n",
+                          b"|\n|\n|\n", b"|||\n| - |\n", b"| a |\n| --- |\n| 1 |\n\n| b | c |\n| --- | --- |\n| 2 | 3 |\n| 4 |\n", b"\\|\n\\|\n", b"| a\\| |\n|---|\n| 1 |\n",
+                          b"no bars\n| --- |\n| a |\n| 1 |\n", b"| a | a |\n| --- | --- |\n| 1 | 2 |\n", b"| a |\r\n| --- |\r\n| 1 |\r\n", b"| : |\n| : |\n| : |\n", b"|a|b|\n|-|-|\n|1|2|\n"]
+    seeds_of = dict(SEEDS, barred=[SEEDS["pprint"][1], b"+---+---+\n| a | b |\n+---+---+\n| 1 | 2 |\n| 3 | 4 |\n+---+---+\n\n+---+\n| c |\n+---+\n| 5 |\n+---+\n"],
+                    markdownc=SEEDS["markdown"] + [b"| a | b | c |\n| --- | ---: | :--- |\n| x\\|y | - | |\n| 3 | 4 | 5 |\n"])
+    sep_of = dict(FMT_SEP, barred=b" | ", markdownc=b" | ")
+    UNISPACE = (b"\xc2\x85", b"\xc2\xa0", b"\xe1\x9a\x80", b"\xe2\x80", b"\xe2\x81\x9f", b"\xe3\x80\x80")
     items, meta = [], []
-    for fmt in ("csv", "csvlite", "pprint", "xtab"):
+    for fmt in ("csv", "csvlite", "pprint", "xtab", "barred", "markdownc"):
         osets = cr_optsets(fmt)
-        docs = list(SEEDS[fmt]) + extra[fmt] + [b"", b"\n", b"\r\n", b"a", b"\n\n"]
-        for s in SEEDS[fmt][:3]:
+        SEEDS_f = seeds_of[fmt]
+        docs = list(SEEDS_f) + extra[fmt] + [b"", b"\n", b"\r\n", b"a", b"\n\n"]
+        for s in SEEDS_f[:3]:
             docs += [s[:i] for i in range(1, len(s), 1 if ctx.tier == "thorough" else 2)]
         for _ in range(n):
             if rng.random() < 0.5:
                 docs.append(bytes(rng.choice(alpha[fmt]) for _ in range(rng.randint(0, 18))))
             else:
-                docs.append(mutate(rng, rng.choice(SEEDS[fmt] + extra[fmt]), FMT_SEP[fmt])[1][:300])
+                docs.append(mutate(rng, rng.choice(SEEDS_f + extra[fmt]), sep_of[fmt])[1][:300])
         seen = set()
         for j, d in enumerate(docs):
-            if b"\x00" in d:
+            if b"\x00" in d or (fmt in ("barred", "markdownc") and any(u in d for u in UNISPACE)):
                 continue
             # the hand-written documents meet every option set, the generated ones a random one
-            for (oname, flags, term, sep) in (osets if d in extra[fmt] and ctx.tier == "thorough" else [osets[0], rng.choice(osets)] if j < len(SEEDS[fmt]) + len(extra[fmt]) else [rng.choice(osets)]):
+            for (oname, flags, term, sep) in (osets if d in extra[fmt] and ctx.tier == "thorough" else [osets[0], rng.choice(osets)] if j < len(SEEDS_f) + len(extra[fmt]) else [rng.choice(osets)]):
                 dd = d
                 if sep not in (b",", b" ") and rng.random() < 0.7:
-                    dd = d.replace(FMT_SEP[fmt], sep)      # make the alternative separator occur
+                    dd = d.replace(sep_of[fmt], sep)      # make the alternative separator occur
                 if (oname, dd) in seen:
                     continue
                 seen.add((oname, dd))
@@ -1098,7 +1116,7 @@ def classified_reader_correspondence(ctx, exe):
     with ctx.timed("coq_cases_classified"):
         bad, cerr = coq_eval_mismatches(ctx, "C18_cr", CR_IMPORTS, CR_TY, "chk2", terms)
     ctx.cov["classified_reader_correspondence"] = {"cases": len(terms), "mismatches": len(bad), "per_format_and_outcome": tally,
-                                                   "option_sets": {f: len(cr_optsets(f)) for f in ("csv", "csvlite", "pprint", "xtab")},
+                                                   "option_sets": {f: len(cr_optsets(f)) for f in ("csv", "csvlite", "pprint", "xtab", "barred", "markdownc")},
                                                    "unrecognised_error_messages": len(unrec)}
     if cerr:
         ctx.violation({"broken": "correspondence-evaluation (classified readers)", "detail": cerr[-2000:]}, found_input=False)
@@ -1443,6 +1461,215 @@ def stress_part(ctx):
 
 
 # ---------------------------------------------------------------------------------------------------------------
+# part 5: verbs -- argument-list grammar through every verb's ParseCLI, and degenerate record streams
+# ---------------------------------------------------------------------------------------------------------------
+VERB_BIG = "100000"      # "huge" counts stay below what is plain resource use (repeat -n / histogram --nbins allocate that much)
+VERB_GENERIC = [[], ["-n"], ["-n", "-5"], ["-n", VERB_BIG], ["-n", "x"], ["-n", "9223372036854775808"], ["-f", ""], ["-f", "a,,b"], ["-f", "a"], ["-f"], ["-g", "a"],
+                ["--nosuchflag"], ["-"], ["--"], [""], ["-f", "a", "then"], ["then"], ["then", "then"], ["-f", "a", "then", "then", "cat"], ["x", "y", "z"],
+                ["-f", "a", "-n", "1", "-g", "b"], ["-f", "\xff\xfe"], ["-f", "a" * 20000], ["-f", "a", "-f"], ["-n", "1.5"], ["-n", "0"], ["-f", ",", "-g", ","], ["-h"]]
+VERB_GENERIC_QUICK = [0, 1, 2, 3, 4, 6, 7, 9, 11, 14, 15, 17, 18, 19, 25, 26]
+VERB_FLAG_ARGS = [None, "", "a", "-5", VERB_BIG, "a,,b", "0", "x=y", "1e309", "\xff"]
+VERB_FLAG_ARGS_QUICK = [0, 1, 3, 5]
+VERB_DEFAULT_CANDIDATES = [[], ["-f", "a"], ["-n", "1"], ["-f", "a", "-g", "b"], ["-a", "sum", "-f", "a"], ["a", "b"], ["$z=1"], ["true"], ["--ivar", ";", "-f", "a"],
+                           ["-f", "/dev/null", "-j", "a"], ["-i", "a,b", "-o", "k,v"], ["a"], ["-a", "sum", "-f", "a,b", "-o", "ab"], ["-a", "delta", "-f", "a"],
+                           ["-f", "a", "--lo", "0", "--hi", "1"], ["--at-least", "a"], ["--stop", "3"], ["-f", "a", "b", "c"], ["-u", "-f", "a"], ["-n", "2"], ["out.tmp"],
+                           ["-d", "a", "-s", "b"], ["-k", "a", "-v", "b"], ["-a", "cov", "-f", "a,b"], ["-a"], ["-f", "a,b"], ["-x", "a", "-y", "b"], ["-r", "a", "b"]]
+VERB_CODES = {"panic": 80, "hang": 72, "internal": 73, "silent-failure": 85}
+
+
+def verb_flags(usage):
+    out = []
+    for m in re.finditer(r"(?m)^\s{0,3}(-{1,2}[A-Za-z0-9][-A-Za-z0-9_|,]*)", usage):
+        for f in re.split(r"[|,]", m.group(1)):
+            if re.fullmatch(r"-{1,2}[A-Za-z0-9][-A-Za-z0-9_]*", f) and f not in ("-h", "--help") and f not in out:
+                out.append(f)
+    return out
+
+
+def verb_part(ctx, exe):
+    """regenerates coq/gen/Gen_VerbOutcomes.v; returns the list of bad cases (confirmed with the real binary)"""
+    rng = ctx.rng
+    T = ctx.tier == "thorough"
+    st, out, err = run_cli(ctx, ["help", "list-verbs"], b"", timeout=60)
+    verbs = [v for v in out.decode().split() if v]
+    if st != 0 or len(verbs) < 10:
+        ctx.violation({"broken": "mlr help list-verbs", "observed": "%s %s" % (st, err[:200])}, found_input=False)
+        verbs = []
+    rec = b"a=3,b=x,c=0.5\na=1,b=y,c=\na=2,b=x,d=7\n"
+    # usage texts (in-process)
+    ures = inproc_many(exe, [[{"id": i, "args": [v, "--help"], "stdin": b""} for i, v in enumerate(verbs)][k::NJOBS] for k in range(NJOBS)], timeout_ms=8000)
+    # the usage text may be longer than the 2 KB head the in-process driver keeps: flags beyond it come from the binary in the thorough tier
+    flags = {}
+    for i, v in enumerate(verbs):
+        txt = (ures.get(i) or {}).get("out", b"").decode("latin1")
+        if T or not txt:
+            st1, o1, e1 = run_cli(ctx, [v, "--help"], b"", timeout=60)
+            txt = o1.decode("latin1")
+        flags[v] = verb_flags(txt)
+    cases = []
+
+    def add(v, kind, pre, vargs, stdin):
+        chain = [v] + vargs
+        if v in ("seqgen", "repeat", "fill-down", "bootstrap", "sample", "shuffle") and "then" not in vargs:
+            chain = chain + ["then", "head", "-n", "4"]       # generators: a huge but finite count is not a hang
+        cases.append({"id": len(cases), "verb": v, "kind": kind, "args": pre + chain, "stdin": stdin})
+    for v in verbs:
+        gl = VERB_GENERIC if T else [VERB_GENERIC[i] for i in VERB_GENERIC_QUICK]
+        for a in gl:
+            add(v, "generic", [], list(a), rec)
+        fl = flags[v] if T else (flags[v][:2] + rng.sample(flags[v][2:], min(2, len(flags[v][2:]))))
+        fa = VERB_FLAG_ARGS if T else [VERB_FLAG_ARGS[i] for i in VERB_FLAG_ARGS_QUICK]
+        for f in fl:
+            for x in fa:
+                add(v, "flag", [], [f] if x is None else [f, x], rec)
+            if T:
+                add(v, "flag", [], [f, "a", f, "b"], rec)
+                add(v, "flag", [], [f, "a", "then"], rec)
+    ngram = len(cases)
+    groups = [cases[k::NJOBS] for k in range(NJOBS)]
+    with ctx.timed("verb_inproc"):
+        res = inproc_many(exe, [g for g in groups if g], timeout_ms=8000)
+    # default-ish arguments per verb: the first candidate that runs on a plain stream
+    cand = []
+    for v in verbs:
+        for j, a in enumerate(VERB_DEFAULT_CANDIDATES):
+            chain = [v] + a + (["then", "head", "-n", "4"] if v in ("seqgen", "repeat") else [])
+            cand.append({"id": len(cand), "verb": v, "cand": j, "args": chain, "stdin": rec})
+    cres_ = inproc_many(exe, [cand[k::NJOBS] for k in range(NJOBS)], timeout_ms=8000)
+    defaults, nodefault = {}, []
+    for v in verbs:
+        for c in (c for c in cand if c["verb"] == v):
+            r = cres_.get(c["id"])
+            if r and inproc_class(r) == "ok":
+                defaults[v] = VERB_DEFAULT_CANDIDATES[c["cand"]]
+                break
+        else:
+            nodefault.append(v)
+    NF = 100000 if T else 10000
+    wide = b",".join(b"k%d=%d" % (i, i) for i in range(NF)) + b"\n"
+    streams = [("no-records", [], b""), ("records-without-fields", ["--ijson"], b"{}\n{}\n[{},{}]"), ("field-named-empty", [], b"=1\n=2\n"),
+               ("many-fields", [], wide), ("repeated-keys-no-dedupe", ["--no-dedupe-field-names"], b"a=1,a=2,b=3,a=4\na=5,a=6\n"),
+               ("only-empty-values", [], b"a=,b=,c=\n"), ("heterogeneous", ["--ijson"], b'{"a":{"x":[1,{"y":2}]},"b":null}\n{"b":[],"c":{}}\n')]
+    for v in verbs:
+        a = defaults.get(v)
+        if a is None:
+            continue
+        for sname, pre, data in streams:
+            if sname == "many-fields" and not T and v in ("summary", "describe", "merge-fields", "sec2gmt", "reorder", "nest", "unsparsify", "template"):
+                continue                    # quadratic in the field count on this tree (observed, finite): thorough tier only
+            add(v, "degenerate:" + sname, pre, list(a), data)
+    with ctx.timed("verb_degenerate_inproc"):
+        res2 = inproc_many(exe, [[c for c in cases[ngram:]][k::NJOBS] for k in range(NJOBS)], timeout_ms=20000)
+    res.update(res2)
+    rows, suspects = {}, []
+    for c in cases:
+        r = res.get(c["id"])
+        cl = inproc_class(r) if r else "not-run"
+        c["class"] = cl
+        ctx.count(("verb", tuple(c["args"]), c["stdin"][:64])); ctx.dist("verb:" + c["kind"])
+        if cl not in ("ok", "mlr_error"):
+            suspects.append(c)
+    # suspects are decided by the real binary (the in-process driver shares process-global state between cases)
+    def cli(c):
+        st, out, err = run_cli(ctx, c["args"], c["stdin"], timeout=30, max_out=50_000_000)
+        return c, c18_classify(st, err), st, err
+    with ctx.timed("verb_cli"):
+        with cf.ThreadPoolExecutor(min(8, NJOBS)) as ex:
+            confirmed = list(ex.map(cli, suspects[:200]))
+            sample = [c for c in cases if c["class"] in ("ok", "mlr_error")]
+            rng.shuffle(sample)
+            tied = list(ex.map(cli, sample[:6 if not T else 300]))
+    for c, k, st, err in confirmed:
+        c["class"], c["cli"] = k, (st, err)
+    if len(suspects) > 200:
+        ctx.violation({"broken": "verb part: %d in-process suspects (more than the binary re-runs 200 of): driver or build problem" % len(suspects), "part": "verb"}, found_input=False)
+    mism = [(c, k) for c, k, st, err in tied if k != c["class"]]
+    mism = [(c, k) for c, k in mism if cli(c)[1] == k]
+    bad = [c for c in cases if c["class"] not in ("ok", "mlr_error")]
+    for c in cases:
+        row = rows.setdefault(c["verb"], {"cases": 0, "ok": 0, "err": 0, "bad": []})
+        row["cases"] += 1
+        if c["class"] == "ok":
+            row["ok"] += 1
+        elif c["class"] == "mlr_error":
+            row["err"] += 1
+        else:
+            row["bad"].append(VERB_CODES.get(c["class"], 85))
+    lines = ["(* REGENERATED on every run by harness/py/checks/c18.py: `mlr help list-verbs` and, per verb, the outcomes of the argument-list grammar",
+             "   and of the degenerate record streams (see coq/C18/VerbTable.v). *)",
+             "From Miller Require Import Base.Bytes.", "Open Scope N_scope.",
+             "Definition gen_verbs : list bytes := [" + "; ".join(coq_bytes(v.encode()) for v in verbs) + "].",
+             "Definition gen_verb_rows : list (bytes * N * N * N * list N) := [",
+             ";\n".join("(%s, %d, %d, %d, [%s])" % (coq_bytes(v.encode()), r["cases"], r["ok"], r["err"], "; ".join(str(x) for x in r["bad"])) for v, r in rows.items()),
+             "]."]
+    write_if_changed(GEN / "Gen_VerbOutcomes.v", "\n".join(lines) + "\n")
+    tally = {}
+    for c in cases:
+        tally.setdefault(c["kind"], {}).setdefault(c["class"], 0)
+        tally[c["kind"]][c["class"]] += 1
+    ctx.cov["verb_table"] = {"verbs": len(verbs), "cases": len(cases), "grammar_cases": ngram, "degenerate_cases": len(cases) - ngram, "classes_by_kind": tally,
+                             "flags_found_in_usage_texts": sum(len(f) for f in flags.values()), "verbs_without_default_arguments": nodefault,
+                             "default_arguments": {v: " ".join(a) for v, a in defaults.items()}, "suspects_inproc": len(suspects),
+                             "cli_sample": {"runs": len(tied), "class_mismatches_inproc_vs_binary": len(mism)}, "many_fields": NF}
+    ctx.cov["evaluations"] += len(cases)
+    for c, k in mism[:3]:
+        ctx.violation({"broken": "in-process driver and mlr binary classify differently (verb part)", "args": c["args"], "stdin_hex": c["stdin"][:400].hex(),
+                       "inproc": c["class"], "binary": k, "part": "verb"}, found_input=False)
+    seen = set()
+    for c in bad:
+        st, err = c.get("cli", ("?", b""))
+        where = re.search(rb"pkg/([\w/-]+)/([\w.-]+)\.go:(\d+)", err)
+        cls = "verb-%s-%s-%s" % (c["class"], c["verb"], where.group(2).decode() if where else c["kind"].split(":")[-1])
+        if cls in seen:
+            continue
+        seen.add(cls)
+        ctx.violation({"class": cls, "part": "verb", "broken": "C18_verb_table_no_panic_or_hang", "args": c["args"], "verb": c["verb"], "kind": c["kind"],
+                       "input": "mlr %s  < stdin" % " ".join(c["args"])[:400], "stdin_hex": c["stdin"].hex() if len(c["stdin"]) <= 2000 else None,
+                       "stdin_head_hex": c["stdin"][:100].hex(), "observed": "%s exit=%s %s" % (c["class"], st, err.decode("utf-8", "replace")[:500]),
+                       "expected": "output, or a message on stderr with a non-zero exit"})
+    return bad
+
+
+# ---------------------------------------------------------------------------------------------------------------
+# regression probes: the witnesses of the repaired C18 findings (KNOWN_FINDINGS.txt `fixed:` lines) stay repaired
+# ---------------------------------------------------------------------------------------------------------------
+PROBES = [
+    (["-n", "put", "end{print append([], @nosuch)}"], b""), (["-n", "put", "end{print concat(1, @nosuch)}"], b""), (["-n", "put", "end{print fmtnum([1,2], @nosuch)}"], b""),
+    (["-n", "put", "func f(a) { return a } end { print concat(1, f); print append([], f); print {\"a\":f} }"], b""), (["-n", "put", "end{print [1,@nosuch]}"], b""),
+    (["--ojson", "put", "$y=[1,@nosuch]; $z=fmtifnum({\"a\":1},@nosuch)"], b"a=1\n"),
+    (["-n", "put", "end{print variance([200,-1,\"x\",[1]]); print kurtosis({\"a\":\"x\"}); print meaneb([\"\"]); print skewness([{}]); print stddev([\"abc\"])}"], b""),
+    (["--igen", "--gen-start", "9223372036854775806", "--gen-stop", "9223372036854775807", "cat"], b""), (["--igen", "--gen-start", "1", "--gen-stop", "3", "--gen-step", "1e-30", "cat"], b""),
+    (["--igen", "--gen-start", "1", "--gen-stop", "3", "--gen-step", "0", "cat"], b""), (["--igen", "--gen-start", "-9223372036854775807", "--gen-stop", "-9223372036854775808", "--gen-step", "-1", "cat"], b""),
+    (["--igen", "--gen-start", "NaN", "--gen-stop", "3", "cat"], b""), (["--igen", "--gen-start", "-Inf", "--gen-stop", "3", "cat"], b""),
+    (["seqgen", "--start", "9223372036854775806", "--stop", "9223372036854775807"], b""), (["seqgen", "--start", "1e20", "--stop", "1e21"], b""),
+    (["seqgen", "--start", "1", "--stop", "3", "--step", "1e-30"], b""), (["seqgen", "--start", "9223372036854775806", "--stop", "1e19"], b""),
+    (["--ixtab", "--ips", "", "cat"], b"a 1\nb 2\n"), (["--ixtab", "--ifs", "", "cat"], b"a 1\n"),
+    (["--ipprint", "--barred-input", "--implicit-csv-header", "cat"], b"no bars\n| 1 |\n"), (["--imd", "--implicit-csv-header", "cat"], b"x\n"),
+    (["-n", "put", "end{print percentile([1,2,3,4,5], 9223372036854775807, {\"interpolate_linearly\":true}); print median([], {\"output_array_not_map\":true}); print leftpad(5,10,\"\"); "
+      "print invqnorm(1e300*1e300 - 1e300*1e300); print strptime(\"abc\",\"Asia/Istanbul\"); print 1 ./ 0; print madd(5,3,0); print 1e400}"], b""),
+]
+
+
+def probes_part(ctx):
+    def go(p):
+        st, out, err = run_cli(ctx, p[0], p[1], timeout=20, max_out=5_000_000)
+        return p, c18_classify(st, err), st, len(out), err
+    with ctx.timed("regression_probes"):
+        with cf.ThreadPoolExecutor(min(8, NJOBS)) as ex:
+            results = list(ex.map(go, PROBES))
+    tally = {}
+    for (args, data), k, st, nout, err in results:
+        ctx.count(("probe", tuple(args))); ctx.dist("probe:" + k)
+        tally[k] = tally.get(k, 0) + 1
+        if k not in ("ok", "mlr_error"):
+            ctx.violation({"class": "regression-%s-%s" % (k, re.sub(r"[^a-z0-9]+", "-", " ".join(args).lower())[:50]), "part": "reader" if data or args[0].startswith("--i") else "bif",
+                           "args": args, "stdin_hex": data.hex(), "cli_program": args[2] if args[:2] == ["-n", "put"] else None,
+                           "input": "mlr " + " ".join(args), "observed": "%s exit=%s %s" % (k, st, err.decode("utf-8", "replace")[:400]),
+                           "expected": "output, or an `mlr:` error with non-zero exit (this input is the witness of a repaired finding)"})
+    ctx.cov["regression_probes"] = {"probes": len(PROBES), "classes": tally}
+
+
+# ---------------------------------------------------------------------------------------------------------------
 def run(ctx):
     ctx.cov["rule"] = ("(1) every row of the built-in function table x every tuple of 37 argument-kind representatives for arity <= 2, and of "
                        "12 (quick) / 37 (thorough) for arity 3, invoked as the callsite nodes do, outcome table regenerated and re-proved; "
@@ -1480,16 +1707,21 @@ def run_parts(ctx, exe):
     forbidden_gate(ctx, ["Base", "C18"])
     if want("bif"):
         mats = gen_bif_table(ctx, exe)
-        ok, why = check_props(ctx, "C18/Props.v", ["C18/TableProofs.vo", "C18/Harness.vo", "C18/Proofs.vo", "C18/ProofsReaders.vo"])
+        vbad = verb_part(ctx, exe)
+        ok, why = check_props(ctx, "C18/Props.v", ["C18/TableProofs.vo", "C18/VerbProofs.vo", "C18/Harness.vo", "C18/Proofs.vo", "C18/ProofsReaders.vo", "C18/ProofsBar.vo"])
         by_class = bif_oracle(ctx, mats)
         if not ok:
-            # a proof obligation broke: the oracle above has reported the failing tuples if the table is the reason
-            if not (by_class and isinstance(why, dict) and "TableProofs" in json.dumps(why)):
+            # a proof obligation broke: the oracles above have reported the failing tuples / verb cases if a table is the reason
+            if not ((by_class or vbad) and isinstance(why, dict) and ("TableProofs" in json.dumps(why) or "VerbProofs" in json.dumps(why))):
                 ctx.violation({"broken": why}, found_input=False)
             elif not ctx.violations and not ctx.known_reported:
                 ctx.violation({"broken": why}, found_input=False)
     else:
-        coq_make(["C18/Harness.vo", "C18/ProofsReaders.vo"])
+        if want("verb"):
+            verb_part(ctx, exe)
+        coq_make(["C18/Harness.vo", "C18/ProofsReaders.vo", "C18/ProofsBar.vo"])
+    if want("probes"):
+        probes_part(ctx)
     if want("line"):
         line_reader_correspondence(ctx, exe)
     if want("classified"):
